@@ -290,8 +290,25 @@ static vec_basic concretize_all(const vec_basic &v)
     return r;
 }
 
+static int concretize_depth = 0;
+struct DepthGuard {
+    DepthGuard()
+    {
+        if (++concretize_depth > 200) {
+            concretize_depth = 0;
+            throw std::runtime_error("concretize: too deep");
+        }
+    }
+    ~DepthGuard()
+    {
+        if (concretize_depth > 0)
+            --concretize_depth;
+    }
+};
+
 static RCP<const Basic> concretize(const RCP<const Basic> &b)
 {
+    DepthGuard guard;
     if (is_a_Number(*b) or is_a_sub<Symbol>(*b) or is_a<Constant>(*b))
         return b;
     if (is_a<Add>(*b))
@@ -333,7 +350,10 @@ static RCP<const Basic> concretize(const RCP<const Basic> &b)
         map_basic_basic m;
         for (const auto &p : s.get_dict())
             insert(m, p.first, concretize(p.second));
-        return concretize(a->subs(m));
+        RCP<const Basic> r = a->subs(m);
+        if (is_a<Subs>(*r))
+            throw std::runtime_error("substitution stays unevaluated");
+        return concretize(r);
     }
     if (is_a_sub<OneArgFunction>(*b))
         return down_cast<const OneArgFunction &>(*b).create(concretize(down_cast<const OneArgFunction &>(*b).get_arg()));
